@@ -59,7 +59,18 @@ RULE = ("random option combinations over 1..8 columns (2..6 mostly): score table
         "show_progress, root None.  K rejected calls: invalid scoring names/objects, start_dag not a DAG, non-iterable "
         "fixed_edges, unknown root/class/estimator_type/weight function, root == class -- each followed by a good call on the "
         "same object.  L orders: node/edge insertion order of start_dag, column order, set(fixed_edges) order, hash seeds, "
-        "row order (weights).  M budget: cases are shuffled; the budget floor is enforced by tools/check.py")
+        "row order (weights).  M budget: cases are shuffled; the budget floor is enforced by tools/check.py.  "
+        "N equal-not-identical: every name handed to estimate()/all_dags()/TreeSearch (start_dag nodes, edge tuples of the "
+        "fixed/black/white lists, tabu entries, root, class) is rebuilt at run time (str join, int(str(x)), tuple(...)), int "
+        "labels above 256 and 2**31/2**40.  O containers: fixed/black/white lists as list, tuple, set, frozenset, dict, dict "
+        "keys view, pandas (Multi)Index, generator, iter, map, filter (one-shot iterators; the model gets the order of the "
+        "same set() construction); all_dags(nodes) as list/tuple/Index/object array/dict keys; start_dag as DAG or "
+        "BayesianNetwork; lists of lists are unhashable for set() and not offered.  P sizes: hill climbing and "
+        "_legal_operations on 9 and 12 columns (parent sets <= 2), stream bigtree on 9/10/12/16/17/33 columns, a 300-state "
+        "column, integer codes above 2**24; ExhaustiveSearch stays at <= 4 columns (2**(n(n-1)) graphs).  Q not applicable "
+        "(structure search has no probability tables).  R combinations: all options are drawn independently in every case "
+        "(cache x non-zero prior ratio, white list x max_indegree x tabu, state_names x scorer instance, TAN x weight "
+        "function x n_jobs)")
 TRUSTED_BASE = ["networkx: DiGraph storage and iteration order (nodes, adjacency, predecessors), copy(), has_path, "
                 "all_simple_paths, is_directed_acyclic_graph, from_pandas_adjacency (drops zero weights), "
                 "maximum_spanning_tree (Kruskal; its output is checked by the proved optimality checker on every "
@@ -106,6 +117,8 @@ def cases(tier, seed):
         out.append({"kind": "reject", "seed": rng.randint(0, 10**9)})
     for i in range(80 if nq else 600):
         out.append({"kind": "cache", "seed": rng.randint(0, 10**9)})
+    for i in range(14 if nq else 150):
+        out.append({"kind": "bigtree", "seed": rng.randint(0, 10**9)})
     rng.shuffle(out)
     return out
 
@@ -129,17 +142,17 @@ def gen_names(rng, n, mixed_ok=False):
         if n >= 2 and all(isinstance(x, int) for x in out):
             out[1] = "A"
         return out
-    pool = list(range(0, n + 4))
+    pool = list(range(0, n + 4)) if rng.random() < 0.6 else [rng.choice([250, 1000, 2**31, 2**40]) + i for i in range(n + 4)]
     rng.shuffle(pool)
     return pool[:n]
 
 
-def gen_table(rng, n, style):
-    """(v, frozenset(parents)) -> Fraction, for all v and parent subsets (indices 0..n-1)"""
+def gen_table(rng, n, style, cap=None):
+    """(v, frozenset(parents)) -> Fraction, for all v and parent subsets (indices 0..n-1) of size <= cap"""
     tab = {}
     for v in range(n):
         rest = [u for u in range(n) if u != v]
-        for r in range(n):
+        for r in range(n if cap is None else min(n, cap + 1)):
             for ps in itertools.combinations(rest, r):
                 if style == "generic":
                     q = Fraction(rng.randint(-2**20, 2**20), 2**10)
@@ -170,19 +183,82 @@ def rand_pairs(rng, n, p):
     return [(u, v) for u in range(n) for v in range(n) if u != v and rng.random() < p]
 
 
+def fresh(x):
+    """an EQUAL object that is not the one stored in the frame / graph (`is` must not be used for names)"""
+    if isinstance(x, str):
+        return "".join(list(x)) if len(x) > 1 else x      # one-character strings are singletons in CPython
+    if isinstance(x, int) and not isinstance(x, bool):
+        return int(str(x))                                  # a new object above 256
+    if isinstance(x, tuple):
+        return tuple(fresh(y) for y in x)
+    return x
+
+
+ONE_SHOT = ("generator", "iter", "map", "filter")
+
+
+class ArgForm:
+    """an iterable argument in one of the container types python offers; make() gives the object to pass
+    (the same object every time for re-usable containers, a new iterator for one-shot ones)"""
+
+    def __init__(self, rng, lst, allow_index=True):
+        kinds = ["list", "list", "set", "tuple", "frozenset", "generator", "iter", "map", "filter", "dict", "dict-keys"]
+        if allow_index and lst and len({type(x) for e in lst for x in e}) == 1:
+            kinds.append("index")
+        self.kind = rng.choice(kinds)
+        self.base = [fresh(e) for e in lst]
+        self.obj = None
+
+    def make(self):
+        k, b = self.kind, self.base
+        if k == "generator":
+            return (e for e in b)
+        if k == "iter":
+            return iter(b)
+        if k == "map":
+            return map(tuple, [list(e) for e in b])
+        if k == "filter":
+            return filter(lambda e: True, b)
+        if self.obj is None:
+            if k == "dict":
+                self.obj = dict.fromkeys(b, 1)
+            elif k == "dict-keys":
+                self._d = dict.fromkeys(b, 1)
+                self.obj = self._d.keys()
+            elif k == "index":
+                import pandas as pd
+                self.obj = pd.Index(b)
+            else:
+                self.obj = {"list": list, "set": set, "tuple": tuple, "frozenset": frozenset}[k](b)
+        return self.obj
+
+    def snapshot(self):
+        return None if self.kind in ONE_SHOT else (type(self.make()), [tuple(e) for e in self.make()])
+
+
 def as_form(rng, lst):
-    f = rng.choice(["list", "set", "tuple"])
-    return {"list": list, "set": set, "tuple": tuple}[f](lst), f
+    f = ArgForm(rng, lst)
+    return f, f.kind
+
+
+def prune_indegree(edges, cap):
+    indeg, out = {}, []
+    for u, v in edges:
+        if indeg.get(v, 0) < cap:
+            indeg[v] = indeg.get(v, 0) + 1
+            out.append((u, v))
+    return out
 
 
 def gen_hc(seed, foreign=False, n=None, names=None, mixed_ok=True):
     rng = random.Random(seed)
     if n is None:
-        n = rng.choice([2, 3, 3, 4, 4, 4, 5, 5, 6] * 4 + [1, 7, 8])
+        n = rng.choice([2, 3, 3, 4, 4, 4, 5, 5, 6] * 4 + [1, 7, 8, 9, 12])
         names = gen_names(rng, n, mixed_ok)
     o = {"n": n, "names": names}
     o["tstyle"] = rng.choice(["generic", "generic", "penal", "ties", "ties", "flat", "fine", "big"])
-    o["tab"] = gen_table(rng, n, o["tstyle"])
+    cap = 2 if n >= 9 else None   # mid-sized problems: parent sets of at most two nodes (table and options agree)
+    o["tab"] = gen_table(rng, n, o["tstyle"], cap)
     # start (start and fixed edges mostly agree on a hidden order, so that their union is acyclic)
     hidden = list(range(n))
     rng.shuffle(hidden)
@@ -210,6 +286,12 @@ def gen_hc(seed, foreign=False, n=None, names=None, mixed_ok=True):
     o["max_iter"] = rng.choice([0, 1, 2, 3, 5, 10, 40, 40, 40, 40])
     if n >= 7:
         o["max_iter"] = rng.choice([1, 3, 6])
+    if cap is not None:
+        o["max_indegree"] = rng.choice([1, 2, 2])
+        both = prune_indegree(o["fixed"] + (o["start"][1] if o["start"] else []), o["max_indegree"])
+        o["fixed"] = [e for e in o["fixed"] if e in both]
+        if o["start"]:
+            o["start"] = (o["start"][0], [e for e in o["start"][1] if e in both and e not in o["fixed"]] + [e for e in o["fixed"] if rng.random() < 0.3])
     if rng.random() < 0.85:
         o["prior"] = [Fraction(0)] * 3
     else:
@@ -428,7 +510,18 @@ def hc_round(o, est, df, drv, rseed, key, foreign=False):
     rng = random.Random(rseed + 1)
     tags = ["hc n=%d" % n, "table=" + o["tstyle"], "tabu=%s" % o["tabu_length"], "maxin=%s" % o["max_indegree"],
             "white=%s" % ("none" if o["white"] is None else "given"), "start=%s" % ("none" if o["start"] is None else "dag")]
-    start = build_start(o, names)
+    fnames = [fresh(x) for x in names]     # equal to the column labels, never the same objects
+    start = build_start(o, fnames)
+    if start is not None and rng.random() < 0.1:
+        from pgmpy.models import BayesianNetwork   # a DAG subclass is a DAG
+        bn = BayesianNetwork()
+        bn.add_nodes_from(list(start.nodes()))
+        try:
+            bn.add_edges_from(list(start.edges()))
+            start = bn
+            tags.append("start=BayesianNetwork")
+        except ValueError:
+            pass   # a cyclic start graph (malformed stream) cannot be built as a BayesianNetwork: keep the plain DAG
     fixed_named = [(names[u], names[v]) for u, v in o["fixed"]]
     if o["bad"] == "start-missing":
         start.remove_node(names[o["start"][0][0]])
@@ -436,13 +529,17 @@ def hc_round(o, est, df, drv, rseed, key, foreign=False):
         start.add_node("__extra__")
     elif o["bad"] == "foreign":
         fixed_named = fixed_named + [(names[0], "__nocolumn__")]
-    fixed_arg, ff = as_form(rng, fixed_named)
-    black_arg, bf = as_form(rng, [(names[u], names[v]) for u, v in o["black"]])
-    white_arg = None if o["white"] is None else as_form(rng, [(names[u], names[v]) for u, v in o["white"]])[0]
+    fixed_f, ff = as_form(rng, fixed_named)
+    black_f, bf = as_form(rng, [(names[u], names[v]) for u, v in o["black"]])
+    white_f = None if o["white"] is None else as_form(rng, [(names[u], names[v]) for u, v in o["white"]])[0]
+    tags += ["fixed-as=" + ff, "black-as=" + bf] + (["white-as=" + white_f.kind] if white_f else [])
+    fixed_arg, black_arg, white_arg = fixed_f.make(), black_f.make(), (None if white_f is None else white_f.make())
     snap = None if start is None else (list(start.nodes()), list(start.edges()), {v: list(start.predecessors(v)) for v in start.nodes()})
     score = table_score(df, names, o["tab"], o["prior"])
     # what the model needs to know about python's orders
-    fixed_order_named = list(set(fixed_arg))
+    fixed_order_named = list(set(fixed_f.make() if ff in ONE_SHOT else fixed_arg))   # the very operation estimate() performs
+    if ff in ONE_SHOT:
+        fixed_arg = fixed_f.make()
     if start is None:
         m_nodes, m_edges = list(range(n)), []
     else:
@@ -452,8 +549,8 @@ def hc_round(o, est, df, drv, rseed, key, foreign=False):
     fidx = dict(idx)
     fidx[K("__nocolumn__")] = n + 7
     fixed_order = [(fidx[K(u)], fidx[K(v)]) for u, v in fixed_order_named]
-    import copy
-    arg_snap = copy.deepcopy((fixed_arg, black_arg, white_arg))
+    forms = [f for f in (fixed_f, black_f, white_f) if f is not None]
+    arg_snap = [f.snapshot() for f in forms]
     df_snap = frame_snapshot(df)
     kwargs = dict(scoring_method=score, start_dag=start, fixed_edges=fixed_arg,
                   tabu_length=o["tabu_length"], max_indegree=o["max_indegree"], black_list=black_arg,
@@ -469,8 +566,8 @@ def hc_round(o, est, df, drv, rseed, key, foreign=False):
         now = (list(start.nodes()), list(start.edges()), {v: list(start.predecessors(v)) for v in start.nodes()})
         if now != snap:
             return bad("impl!=spec:start_dag-mutated", {"before": str(snap), "after": str(now)}, key=key, tags=tags)
-    if (fixed_arg, black_arg, white_arg) != arg_snap or [type(x) for x in (fixed_arg, black_arg, white_arg)] != [type(x) for x in arg_snap]:
-        return bad("impl!=spec:list-argument-mutated", {"before": str(arg_snap), "after": str((fixed_arg, black_arg, white_arg))}, key=key, tags=tags)
+    if [f.snapshot() for f in forms] != arg_snap:
+        return bad("impl!=spec:list-argument-mutated", {"before": str(arg_snap), "after": str([f.snapshot() for f in forms])}, key=key, tags=tags)
     if frame_snapshot(df) != df_snap:
         return bad("impl!=spec:data-frame-mutated", {}, key=key, tags=tags)
     if res is not None and (res is start or not isinstance(res, type(start or res))):
@@ -482,6 +579,7 @@ def hc_round(o, est, df, drv, rseed, key, foreign=False):
         if len(names) >= 2:
             res.add_edge(names[1], names[0])
         res.add_node("__scribble__")
+        kwargs.update(fixed_edges=fixed_f.make(), black_list=black_f.make(), white_list=None if white_f is None else white_f.make())
         res2 = est.estimate(**kwargs)
         if res2 is res or (list(res2.nodes()), list(res2.edges())) != first:
             return bad("impl!=spec:result-not-independent", {"first": str(first), "second": str((list(res2.nodes()), list(res2.edges())))}, key=key, tags=tags)
@@ -642,6 +740,9 @@ def case_legal(case, drv):
     ns = list(range(n))
     rng.shuffle(ns)
     es = rand_edges_acyclic(rng, n, rng.choice([0.2, 0.4, 0.6, 0.9]))
+    if n >= 9:
+        es = prune_indegree(es, o["max_indegree"])
+    names = [fresh(x) for x in names]   # graph, lists and tabu entries are built from equal, not identical, labels
     g = DAG()
     g.add_nodes_from([names[i] for i in ns])
     g.add_edges_from([(names[u], names[v]) for u, v in es])
@@ -710,7 +811,8 @@ def vary_frame(rng, df, tags, allow_const=True):
     tags.append("index=" + ik)
     for c in df.columns:
         vals = sorted(set(df[c]))
-        vk = rng.choice(["asis", "asis", "one-based", "reversed", "gapped", "bool", "cat", "cat-unused", "cat-reordered", "const"])
+        vk = rng.choice(["asis", "asis", "one-based", "reversed", "gapped", "bool", "cat", "cat-unused", "cat-reordered", "const",
+                         "huge-codes"])
         if vk == "bool" and len(vals) != 2:
             vk = "one-based"
         if vk == "const" and not allow_const:
@@ -721,6 +823,8 @@ def vary_frame(rng, df, tags, allow_const=True):
             df[c] = df[c].map({v: vals[len(vals) - 1 - i] for i, v in enumerate(vals)})
         elif vk == "gapped":
             df[c] = df[c].map({v: 10 * v - 3 for v in vals})
+        elif vk == "huge-codes":        # neighbours above 2**24 (a float32 detour would merge them)
+            df[c] = df[c].map({v: 2**24 + 1 + v for v in vals})
         elif vk == "bool":
             df[c] = df[c].map({vals[0]: False, vals[1]: True}).astype(bool)
         elif vk == "cat":
@@ -821,12 +925,16 @@ def case_builtin(case, drv):
             call = dict(show_progress=False)
             tags.append("all-defaults")
         else:
-            call = dict(scoring_method=scoring, start_dag=None, fixed_edges=[(names[u], names[v]) for u, v in o["fixed"]],
+            fn_ = [fresh(x) for x in names]
+            fx_form = ArgForm(rng, [(fn_[u], fn_[v]) for u, v in o["fixed"]], allow_index=False)
+            bl_form = ArgForm(rng, [(fn_[u], fn_[v]) for u, v in o["black"]], allow_index=False)
+            call = dict(scoring_method=scoring, start_dag=None,
+                        fixed_edges=fx_form.make(),
                         tabu_length=o["tabu_length"], max_indegree=o["max_indegree"],
-                        black_list=[(names[u], names[v]) for u, v in o["black"]],
-                        white_list=None if o["white"] is None else [(names[u], names[v]) for u, v in o["white"]],
+                        black_list=bl_form.make(),
+                        white_list=None if o["white"] is None else [(fn_[u], fn_[v]) for u, v in o["white"]],
                         epsilon=float(o["eps"]), max_iter=o["max_iter"], show_progress=False)
-        start = build_start(o, names)
+        start = build_start(o, [fresh(x) for x in names])
         if not defaults:
             call["start_dag"] = start
         start_e = [] if start is None else o["start"][1]
@@ -836,6 +944,8 @@ def case_builtin(case, drv):
                 # the index is never data: the same observations under a RangeIndex give the same graph
                 twin = HillClimbSearch(df.reset_index(drop=True), use_cache=use_cache, **est_kw)
                 call2 = dict(call)
+                if not defaults:   # one-shot iterators were consumed by the first call
+                    call2.update(fixed_edges=fx_form.make(), black_list=bl_form.make())
                 if as_instance:
                     call2["scoring_method"] = cls(df.reset_index(drop=True), **kw, **est_kw)
                 res0 = twin.estimate(**call2)
@@ -908,7 +1018,14 @@ def case_exh(case, drv):
     if n >= 2:
         sub = rng.sample(range(n), rng.randint(1, n))
         _, allsub = drv.call("c11_exh", [sub, table_obj(tab)])
-        dsub = [sorted((idx[K(u)], idx[K(v)]) for u, v in d.edges()) for d in es.all_dags(nodes=[names[i] for i in sub])]
+        import numpy as np
+        import pandas as pd
+        nl = [fresh(names[i]) for i in sub]     # equal labels, other objects; every sized container
+        ck = rng.choice(["list", "tuple", "index", "object-array", "dict-keys"])
+        nodes_arg = {"list": nl, "tuple": tuple(nl), "index": pd.Index(nl), "object-array": np.array(nl, dtype=object),
+                     "dict-keys": dict.fromkeys(nl).keys()}[ck]
+        tags.append("nodes-as=" + ck)
+        dsub = [sorted((idx[K(u)], idx[K(v)]) for u, v in d.edges()) for d in es.all_dags(nodes=nodes_arg)]
         if dsub != [sorted(tuple(e) for e in edges) for _, edges in allsub]:
             return bad("impl!=model:all_dags(nodes)", {"nodes": sub, "impl_count": len(dsub), "model_count": len(allsub)}, key=key, tags=tags)
         tags.append("all_dags(nodes)")
@@ -1091,9 +1208,9 @@ def case_tree(case, drv):
     checked = 0
     mst_memo = {}
     for root in roots:
-        ts = TreeSearch(df, root_node=None if root is None else names[root], n_jobs=n_jobs)
+        ts = TreeSearch(df, root_node=None if root is None else fresh(names[root]), n_jobs=n_jobs)
         try:
-            D = ts.estimate(estimator_type=kind, class_node=None if cls is None else names[cls],
+            D = ts.estimate(estimator_type=kind, class_node=None if cls is None else fresh(names[cls]),
                             edge_weights_fn=fn, show_progress=show)
         except ValueError:
             # automatic root may be the class node
@@ -1208,6 +1325,103 @@ def case_tree(case, drv):
     return ok(nontrivial=n >= 3 and checked > 0, key=key, tags=tags)
 
 
+def case_bigtree(case, drv):
+    """mid-sized Chow-Liu / TAN problems (9..33 columns, sizes around 8, 16, 32 and = 1 mod 8) and a column with more than
+    256 states.  The brute-force optimality checker is out of reach here: the model contributes spanning_treeb and the BFS
+    orientation, optimality is checked by the cycle property (every edge left out is no heavier than any tree edge
+    on the path between its ends) on pgmpy's own weights as exact rationals."""
+    import numpy as np
+    import pandas as pd
+    from pgmpy.estimators import TreeSearch
+    rng = random.Random(case["seed"])
+    key = common.canon_key(["bigtree", case["seed"]])
+    n = rng.choice([9, 9, 10, 12, 16, 17, 33])
+    style = rng.choice(["str", "int", "bigint"])
+    names = {"str": ["v%d" % i for i in range(n)], "int": list(range(n)), "bigint": [1000 + 7 * i for i in range(n)]}[style]
+    rng.shuffle(names)
+    idx = {K(nm): i for i, nm in enumerate(names)}
+    many = n <= 12 and rng.random() < 0.4
+    m = 600 if many else 40
+    rows = [[rng.randrange(2) for _ in range(n)] for _ in range(m)]
+    if many:     # one column with ~300 distinct states, another that follows it
+        for r_, rw in enumerate(rows):
+            rw[0] = r_ % 300
+            rw[1] = (rw[0] * 7) % 5
+    df = pd.DataFrame(rows, columns=list(names))
+    mode = "mutual_info" if (many and n <= 12) else rng.choice(["table", "table-ties"])
+    tags = ["bigtree n=%d" % n, "names=" + style, "weights=" + mode] + (["states>256"] if many else [])
+    if mode == "mutual_info":
+        fn = "mutual_info"
+    else:
+        wt = {}
+        for i in range(n):
+            for j in range(i + 1, n):
+                wt[(i, j)] = wt[(j, i)] = (Fraction(rng.randint(1, 2**16), 2**8) if mode == "table" else Fraction(rng.choice([1, 2, 3]), 2))
+
+        def fn(u, v):
+            return float(wt[(idx[K(u.name)], idx[K(v.name)])])
+    kind = "tan" if n <= 17 and rng.random() < 0.3 else "chow-liu"
+    cls = rng.randrange(1 if many else 0, n) if kind == "tan" else None   # (not the 300-state column as class: 300 sub-frames)
+    tags.append("type=" + kind)
+    keep = [i for i in range(n) if i != cls]
+    W = (TreeSearch._get_conditional_weights(df, names[cls], fn, 1, False) if kind == "tan"
+         else TreeSearch._get_weights(df, fn, 1, False))
+    if W.shape != (n, n) or not np.array_equal(W, W.T):
+        return bad("impl!=spec:weights-not-symmetric", {}, key=key, tags=tags)
+    if mode != "mutual_info":
+        for i in keep:
+            for j in keep:
+                if i < j and abs(float(W[i, j]) - float(wt[(i, j)])) > 1e-9 * float(wt[(i, j)]):
+                    return bad("impl!=spec:weights-matrix", {"pair": [i, j], "impl": float(W[i, j]), "table": str(wt[(i, j)])}, key=key, tags=tags)
+    wq = {(i, j): Fraction(float(W[i, j])) for i in keep for j in keep if i < j and W[i, j] != 0}
+    G = [[[i, j], q] for (i, j), q in sorted(wq.items())]
+    for root in rng.sample(keep, 2) + [None]:
+        ts = TreeSearch(df, root_node=None if root is None else fresh(names[root]), n_jobs=1)
+        try:
+            D = ts.estimate(estimator_type=kind, class_node=None if cls is None else fresh(names[cls]), edge_weights_fn=fn, show_progress=False)
+        except ValueError:
+            if kind == "tan" and root is None and K(ts.root_node) == K(names[cls]):
+                continue
+            raise
+        root = idx[K(ts.root_node)]
+        edges = [(idx[K(u)], idx[K(v)]) for u, v in D.edges()]
+        if kind == "tan":
+            ce = {(cls, v) for v in keep}
+            if not ce <= set(edges):
+                return bad("impl!=spec:tan-class-edges", {"class": cls}, key=key, tags=tags)
+            edges = [e for e in edges if e not in ce]
+        T = sorted({(min(u, v), max(u, v)) for u, v in edges})
+        if len(T) != len(edges) or len(T) != len(keep) - 1 or not drv.call("c11_span", [keep, G, [list(e) for e in T]]):
+            return bad("impl!=spec:not-a-spanning-tree", {"edges": edges}, key=key, tags=tags)
+        orient = drv.call("c11_bfs", [keep, [list(e) for e in T], root])
+        if sorted(edges) != sorted(tuple(e) for e in orient):
+            return bad("impl!=model:bfs-orientation", {"impl": sorted(edges), "model": sorted(orient), "root": root}, key=key, tags=tags)
+        # cycle property
+        adj = {v: [] for v in keep}
+        for u, v in T:
+            adj[u].append(v)
+            adj[v].append(u)
+
+        def path(a, b):
+            prev, todo = {a: None}, [a]
+            while todo:
+                x = todo.pop()
+                for y in adj[x]:
+                    if y not in prev:
+                        prev[y] = x
+                        todo.append(y)
+            out = []
+            while prev[b] is not None:
+                out.append((min(b, prev[b]), max(b, prev[b])))
+                b = prev[b]
+            return out
+        tset = set(T)
+        for (i, j), q in wq.items():
+            if (i, j) not in tset and any(wq[e] < q for e in path(i, j)):
+                return bad("impl!=spec:spanning-tree-not-maximal", {"left_out": [i, j], "weight": str(q), "root": root}, key=key, tags=tags)
+    return ok(nontrivial=True, key=key, tags=tags)
+
+
 def run_case(case, drv):
     k = case["kind"]
     if k == "hc":
@@ -1218,6 +1432,8 @@ def run_case(case, drv):
         return case_reject(case, drv)
     if k == "cache":
         return case_cache(case, drv)
+    if k == "bigtree":
+        return case_bigtree(case, drv)
     if k == "legal":
         return case_legal(case, drv)
     if k == "builtin":
